@@ -29,6 +29,8 @@
 """Handling for action context."""
 
 import abc
+import sys
+from types import FrameType
 from typing import Tuple, TYPE_CHECKING, Dict
 
 import deep.logging
@@ -42,6 +44,36 @@ from deep.utils import str2bool
 if TYPE_CHECKING:
     from deep.processor.context.trigger_context import TriggerContext
     from deep.api.tracepoint.trigger import LocationAction
+
+
+def forget_evaluation(error: BaseException, frame: FrameType):
+    """
+    Take the frames of our evaluation out of the traceback of an exception an expression has raised.
+
+    Python adds an entry to the traceback of an exception for every frame it passes: ours (which lead back to the
+    frame of the caller that stores the result - a reference cycle that keeps the whole stack alive until the garbage
+    collector runs), the frame of the expression (its names are a copy of all the variables of the paused frame) and
+    the functions it called. The exception is not always made by the expression: `future.result()` raises the object
+    the application keeps. What the application then prints must be what it would print without us: the entries that
+    were there before stay, the entries of this evaluation go.
+
+    :param error: the exception that was caught
+    :param frame: the frame that caught it
+    """
+    try:
+        tb = error.__traceback__
+        while tb is not None:
+            # (no calls in here: the application can be close to the recursion limit)
+            running = tb.tb_frame
+            while running is not None and running is not frame:
+                running = running.f_back
+            if running is None:
+                # this entry is of a frame that does not run under ours: it was there before
+                break
+            tb = tb.tb_next
+        error.__traceback__ = tb
+    except BaseException:
+        error.__traceback__ = None
 
 
 class FailedExpression(Exception):
@@ -114,6 +146,7 @@ class ActionContext(abc.ABC):
             return WatchResult(source, watch, variable_id), var_processor.var_lookup, log_str
         except BaseException as e:
             logging.exception("Error evaluating watch %s", watch)
+            forget_evaluation(e, sys._getframe())
             # the text of the exception is data of the program (the key that is missing, a whole document that cannot
             # be parsed): it is held to the string limit like the values
             message = self.__error_text(e)[:max(self.collection_config.max_string_length, len(type(e).__name__))]
